@@ -132,6 +132,13 @@ func (s *genSt) name() enc.Name {
 	if d > 0 && r.Chance(1, 14) {
 		n[len(n)-1] = comp(common.Pick(r, []string{longA, longB}))
 	}
+	if d > 0 && r.Chance(1, 10) {
+		// a typed twin of an ordinary name: the same value bytes under another TLV type (keyword, segment, version,
+		// and legal types beyond one byte that agree with the generic type 8 in their low byte(s): 264, 520)
+		i := len(n) - 1 - r.Intn(d)
+		n[i] = enc.Component{Typ: common.Pick(r, []enc.TLNum{32, 50, 54, 264, 520}), Val: n[i].Val}
+		s.g.Stat("name-typed-twin")
+	}
 	return n
 }
 
